@@ -48,6 +48,8 @@ pub struct DriveOpts {
     /// number of entry-pure long sessions (derive-only / attribute-on-types-only / impl-only)
     pub pure: u64,
     pub pure_factor: u64,
+    /// number of pressure sessions (thread churn / cache pressure / error storm)
+    pub pressure: u64,
     /// the LD_PRELOAD library of the clock seam
     pub warp_lib: Option<PathBuf>,
     /// the sweep sessions and the first N ordinary sessions also write (request, output) pairs
@@ -244,6 +246,7 @@ pub fn drive(o: &DriveOpts) -> Result<DriveSummary, String> {
     let ids: Vec<u64> = (0..o.marathon)
         .map(|k| crate::session::MARATHON_BASE + k)
         .chain((0..o.pure).map(|k| crate::session::PURE_BASE + k))
+        .chain((0..o.pressure).map(|k| crate::session::PRESSURE_BASE + k))
         .chain((0..o.sweep).map(|k| crate::session::SWEEP_BASE + k))
         .chain((0..o.flood).map(|k| crate::session::FLOOD_BASE + k))
         .chain((0..if o.warp_lib.is_some() { o.warp } else { 0 }).map(|k| crate::session::WARP_BASE + o.first_session + k))
